@@ -24,4 +24,38 @@ def ref_slices_from_targets(target_index, target_values, length, forward, limit,
     return out
 
 
-REFS = dict(ref_slices_from_targets=ref_slices_from_targets)
+def ref_tb_equals(a, b, compare_dtype, skipna):
+    """content equivalence of two TypeBlocks proxies, from the property statement (C10)"""
+    import numpy as np
+    if a._shape != b._shape:
+        return False
+    if compare_dtype and list(a._dtypes) != list(b._dtypes):
+        return False
+
+    def cols(tb):
+        out = []
+        for blk in tb._blocks:
+            arr = blk.a
+            if arr.ndim == 1:
+                out.append(arr)
+            else:
+                out.extend(arr[:, j] for j in range(arr.shape[1]))
+        return out
+
+    def missing(x):
+        try:
+            return bool(x != x) or (isinstance(x, (np.datetime64, np.timedelta64)) and bool(np.isnat(x)))
+        except Exception:
+            return False
+    for ca, cb in zip(cols(a), cols(b)):
+        for x, y in zip(ca.tolist() if ca.dtype.kind != 'O' else list(ca), cb.tolist() if cb.dtype.kind != 'O' else list(cb)):
+            try:
+                same = bool(x == y)
+            except Exception:
+                same = False
+            if not same and not (skipna and missing(x) and missing(y)):
+                return False
+    return True
+
+
+REFS = dict(ref_tb_equals=ref_tb_equals, ref_slices_from_targets=ref_slices_from_targets)
